@@ -254,6 +254,18 @@ func (u *User) eventOptions(ro *v1beta1.Rollout) []option {
 			}
 			continue
 		}
+		if ev.Kind == "delete-batchrelease-claim-window" {
+			// narrow window on purpose: the BatchRelease has claimed the workload but not yet recorded that it did
+			br, _ := u.sim.Store.Peek(ObjKey{GK: gkBR, NS: ro.Namespace, Name: ro.Name}).(*v1beta1.BatchRelease)
+			w := u.getWorkload()
+			if br == nil || w == nil || br.DeletionTimestamp != nil || controlledByUID(w) != string(br.UID) ||
+				!(br.Status.Phase == "" || br.Status.Phase == v1beta1.RolloutPhaseInitial || br.Status.Phase == v1beta1.RolloutPhasePreparing) {
+				continue
+			}
+			e := ev
+			opts = append(opts, u.step(ev.Kind, func() { u.fire(e) }))
+			break
+		}
 		if strings.HasSuffix(ev.Kind, "-late") {
 			if ro.Status.Phase != v1beta1.RolloutPhaseHealthy || !u.Released || ro.Status.GetSubStatus() == nil || ro.Status.GetSubStatus().CurrentStepState != v1beta1.CanaryStepStateCompleted {
 				continue
@@ -459,6 +471,14 @@ func (u *User) fire(ev *UserEvent) {
 		}
 		u.Disturbed = true
 		_ = u.h.Delete(u.ctx, ro)
+	case "delete-batchrelease", "delete-batchrelease-claim-window":
+		// a PaaS (or kubectl) may delete the BatchRelease object itself; its finalizer must still give the workload back
+		br := &v1beta1.BatchRelease{}
+		if err := u.h.Get(u.ctx, types.NamespacedName{Namespace: u.sc.NS, Name: u.sc.Name + "-ro"}, br); err != nil {
+			return
+		}
+		u.Disturbed = true
+		_ = u.h.Delete(u.ctx, br)
 	case "touch-annotation":
 		o := u.getWorkload()
 		if o == nil {
